@@ -270,8 +270,8 @@ def c31_design(run):
         seen = set(json.dumps(c, sort_keys=True) for c in cases)
         c3cases = [c for c in printed_json(r3.out) if json.dumps(c, sort_keys=True) not in seen]
         run.cov["exhaustive_3_record_cases_generated"] = len(c3cases)
-        if len(c3cases) > 12000:
-            c3cases = random.Random(run.seed).sample(c3cases, 12000)   # all of them are model-checked; this many are replayed
+        if len(c3cases) > 6000:
+            c3cases = random.Random(run.seed).sample(c3cases, 6000)   # all of them are model-checked; this many are replayed
         cases += c3cases
     return cases
 
@@ -339,14 +339,14 @@ def run_c31(run):
     # the design run, the seeded-bug runs, the simulation and the go builds are independent subprocesses
     small_cases, big_cases, _, (binp, rootp) = parallel(
         lambda: c31_design(run),
-        lambda: c31_simulate(run, walks=(250 if quick else 4000), maxops=(8 if quick else 12)),
+        lambda: c31_simulate(run, walks=(250 if quick else 2500), maxops=(8 if quick else 12)),
         bugs, build)
     rng = random.Random(run.seed)
     if not small_cases or not big_cases:
         raise vlib.Inconclusive("the generator produced no cases (small=%d, simulated=%d)" % (len(small_cases), len(big_cases)))
     # quick: every exhaustive case goes through every batch-level transport and one DB-level group (rotating);
     # the simulated ones through everything.  thorough: everything through everything.
-    cap_big = 250 if quick else 6000
+    cap_big = 250 if quick else 3000
     if len(big_cases) > cap_big:
         big_cases = rng.sample(big_cases, cap_big)
     run.cov["exhaustive_cases_generated"] = len(small_cases)
@@ -474,7 +474,9 @@ def c35_generate(run):
             return vlib.build_driver("internal/verif/encdrv", name="internal_verif_encdrv" + DRVSUFFIX)
     if SKIP_DESIGN:
         scopes = scopes[:1]
-    res = parallel(*([(lambda n=n, c=c: exh(n, c)) for n, c in scopes] + [sim, bugs, build]))
+    res = parallel(*([(lambda n=n, c=c: exh(n, c)) for n, c in scopes] + [sim, lambda: c35_tables(run), bugs, build]))
+    run.tables = res[-3]
+    del res[-3]
     cases, seen = [], set()
     for lst in res[:-2]:
         for c in lst:
@@ -484,6 +486,40 @@ def c35_generate(run):
                 cases.append(c)
     run.binp = res[-1]
     return cases
+
+
+def c35_tables(run):
+    """cockroach columnar key schema: design check of the seek model (exhaustive, tiny) + TLC-simulated tables"""
+    quick = run.tier == "quick"
+
+    def exh():
+        if SKIP_DESIGN:
+            return
+        r = vlib.tlc_must_pass(KO, "KeyOrderTab", "KeyOrderTab.cfg", workers=2, timeout=900)
+        with _LOCK:
+            run.add_design("KeyOrderTab exhaustive (tables of <= 3 keys over 2 byte values, W=1, L=1): seek model sanity", r)
+
+    def sim(consts, walks, label):
+        r = vlib.tlc(KO, "KeyOrderTab", "sim.cfg", workers=1, timeout=1500, simulate="num=%d" % walks, depth=consts["MaxKeys"] + 4,
+                     seed=run.seed, extra_files={"sim.cfg": cfg_text(consts, invariants=["EmitInv"])})
+        if r.timed_out or r.violation or ("Error:" in r.out):
+            raise vlib.Inconclusive("KeyOrderTab simulation failed (%s)\n%s" % (r.violation, r.out[-2500:]))
+        tabs = printed_json(r.out)
+        with _LOCK:
+            run.design["KeyOrderTab/simulate " + label] = dict(walks=walks, tables=len(tabs), generated=r.generated, wall_s=round(r.wall, 1))
+            run.transitions += r.generated
+        return tabs
+    jobs = [exh, lambda: sim(dict(Bug="none", Alphabet=[0, 97, 255], MaxPLen=1, W=2, L=1, MaxKeys=10, Emit=True),
+                             40 if quick else 400, "(3 byte values, W=2, L=1, 10 keys)")]
+    if not quick:
+        jobs.append(lambda: sim(dict(Bug="none", Alphabet=[0, 97, 255], MaxPLen=2, W=3, L=2, MaxKeys=16, Emit=True), 150,
+                                "(prefixes <= 2 bytes, W=3, L=2, 16 keys)"))
+    with Phase(run, "tables"):
+        res = parallel(*jobs)
+    tabs = []
+    for t in res[1:]:
+        tabs += t
+    return tabs
 
 
 def c35_corrupt(l):
@@ -528,17 +564,25 @@ def run_c35(run):
     with open(cf, "w") as o:
         for c in cases:
             o.write(json.dumps(c) + "\n")
-    env = dict(VERIF_OUT=tdir, VERIF_CASES=cf, VERIF_SEED=str(run.seed))
+    tf = os.path.join(tdir, "tables.jsonl")
+    with open(tf, "w") as o:
+        for t in run.tables:
+            o.write(json.dumps(t) + "\n")
+    env = dict(VERIF_OUT=tdir, VERIF_CASES=cf, VERIF_TABLES=tf, VERIF_SEED=str(run.seed))
     with Phase(run, "drive"):
         _, info = run_go(binp, "TestC35$", env)
+        _, info2 = run_go(binp, "TestC35Seek$", env)
     run.cov["driver"] = info
+    run.cov["driver_seek"] = info2
+    if not run.tables or info2.get("seeks", 0) == 0:
+        raise vlib.Inconclusive("no columnar table was generated / sought (tables=%d)" % len(run.tables))
     run.cov["go_side_prediction_mismatches (diagnostic only)"] = info.get("gomismatch", 0)
     files = sorted(glob.glob(os.path.join(tdir, "*.ndjson")))
     if not files:
         raise vlib.Inconclusive("no traces produced")
     tc = trace_cfg(dict(Bug="none"))
     with Phase(run, "validate"):
-        ev, rejected = validate_files(run, KO, "KeyOrderTrace", tc, files, ("pair", "triple", "sep", "succ", "isucc"), "C35",
+        ev, rejected = validate_files(run, KO, "KeyOrderTrace", tc, files, ("pair", "triple", "sep", "succ", "isucc", "table", "scan", "seek"), "C35",
                                       sig_fields=("op", "fam"), batch_lines=60000)
     run.cov["trace_events"] = ev
     if rejected == 0:
@@ -552,7 +596,8 @@ def run_c35(run):
     run.cov["rule"] = ("evaluations = events decided by KeyOrderTrace (pair: Compare both ways, Equal, Split x2, ComparePointSuffixes, CompareRangeSuffixes "
                        "both ways, AbbreviatedKey order; triple: three Compare results; sep/succ/isucc: the Separator/Successor/ImmediateSuccessor "
                        "laws). Non-trivial = pairs of different keys whose prefixes are equal or one a proper prefix of the other (where suffix order, "
-                       "sentinel and length variants decide); distinct by (family, a, b).")
+                       "sentinel and length variants decide); distinct by (family, a, b). "
+                       "table/scan/seek: columnar sstables written with cockroachkvs.KeySchema, full scan and SeekGE/SeekLT of every universe key.")
     for f in files[:1]:
         ls = [json.loads(l) for l in list(open(f))[:400:80]]
         for e in ls:
@@ -562,7 +607,11 @@ def run_c35(run):
         "(cockroachkvs.EncodeKey / DecodeEngineKey / EncodeMVCCKey and testkeys.Suffix are the package's own)",
         "MVCC versus lock-table versions under one roachpb key is not a documented case and is not generated",
         "Separator/Successor/ImmediateSuccessor/AbbreviatedKey are checked as laws on outputs that decode to valid keys (undecodable outputs are counted, not judged)",
-        "NOT covered: the cockroach columnar KeySeeker / KeyWriter (cockroachKeySeeker) against this order",
+        "cockroach columnar key schema: tables hold non-empty roachpb keys and no explicit zero timestamp (as the repository's own generator and "
+        "encoders); materialised keys are compared up to the comparer's equivalences (the schema does not store the synthetic byte / zero-logical variant)",
+        "observed while building this check, outside the property's key domain and not judged: a columnar data block whose keys all have the EMPTY roachpb "
+        "key makes the writer panic ('unreachable' in colblk.PrefixBytesBuilder.Finish via cockroachKeyWriter.Finish); an explicit all-zero MVCC version "
+        "is materialised as 'no version'",
         "pure-function laws over an enumerated universe: this is exploration, not a proof over all keys",
     ]
 
@@ -577,8 +626,8 @@ C31_TECH = "TLA+ model (BatchEnc.tla over KV.tla) + TLC-generated batches run on
 
 
 C35_NOTE = ("Claimed in part, as exploration: pure-function laws over enumerated small universes (3-5 byte values, prefixes of <= 1-2 bytes, a "
-            "handful of timestamps in every encoded length variant, 4 lock-table versions); nothing is proved for all keys. NOT covered: the cockroach "
-            "columnar key schema (KeySeeker/KeyWriter seek and materialisation). Trusted: TLC, KeyOrder.tla as the statement of the intended order, the "
+            "handful of timestamps in every encoded length variant, 4 lock-table versions); nothing is proved for all keys. The cockroach columnar key "
+            "schema is exercised through TLC-simulated tables (10-16 keys, every universe key sought) only. Trusted: TLC, KeyOrder.tla as the statement of the intended order, the "
             "driver's structure<->bytes mapping.")
 C35_TECH = "TLA+ statement of the intended key order + TLC-enumerated pairs/triples run through the real comparers + TLC trace validation of every result"
 
@@ -602,8 +651,10 @@ def REGISTER(reg):
         "descending). TLC checks the Comparer-contract laws on that order exhaustively over small universes (4 seeded wrong orders are caught) and "
         "emits every pair and sampled/all same-prefix triples; the driver encodes them with the real encoders and calls the real Compare/Equal/Split/"
         "ComparePointSuffixes/CompareRangeSuffixes/AbbreviatedKey/Separator/Successor/ImmediateSuccessor; KeyOrderTrace decides each result against "
-        "the intended order, plus antisymmetry/transitivity of the real Compare and the Separator/Successor/ImmediateSuccessor/AbbreviatedKey laws.",
+        "the intended order, plus antisymmetry/transitivity of the real Compare and the Separator/Successor/ImmediateSuccessor/AbbreviatedKey laws. "
+        "TLC-simulated sorted tables are written as columnar sstables with cockroachkvs.KeySchema; full scans and SeekGE/SeekLT of every universe key "
+        "through the real columnar iterator (cockroachKeySeeker) are decided against the same order.",
         C35_NOTE, C35_TECH, "DESIGN 6/C35", level="exploration", engine="enc")
 
 
-SPEC_MODULES = [("BatchEnc", "BatchEncGen"), ("BatchEnc", "BatchEncTrace"), ("KeyOrder", "KeyOrderGen"), ("KeyOrder", "KeyOrderTrace")]
+SPEC_MODULES = [("BatchEnc", "BatchEncGen"), ("BatchEnc", "BatchEncTrace"), ("KeyOrder", "KeyOrderGen"), ("KeyOrder", "KeyOrderTrace"), ("KeyOrder", "KeyOrderTab")]
